@@ -34,6 +34,10 @@ type Profile struct {
 	BurstMax       int      // max length of subscribe bursts
 	Par            bool     // generate race groups
 	NoVersionFirst bool
+	// Protocol: the clients behave like protocol-following clients: they only
+	// unsubscribe what has been confirmed to them and send no ill-formed requests.
+	Protocol bool
+	Throttle bool // draw reference/reset throttle settings
 }
 
 // Gen generates and executes ops statefully.
@@ -224,7 +228,11 @@ func (g *Gen) Step() bool {
 		)
 	}
 	if len(pend) > 0 {
-		cs = append(cs, choice{g.wt("answer"), func() { g.opAnswer(pend) }})
+		n := len(pend)
+		if n > 6 {
+			n = 6
+		}
+		cs = append(cs, choice{g.wt("answer") * (1 + n) / 2, func() { g.opAnswer(pend) }})
 	}
 	if len(g.names) > 0 {
 		cs = append(cs,
@@ -258,7 +266,11 @@ func boolInt(b bool) int {
 }
 
 func (g *Gen) opConnect() {
-	g.w.Exec(Op{K: "connect", C: len(g.w.Clients)})
+	n := len(g.w.Clients)
+	g.w.Exec(Op{K: "connect", C: n})
+	if len(g.w.Clients) <= n {
+		return
+	}
 	c := g.w.Clients[len(g.w.Clients)-1]
 	if !c.Dialed {
 		return
@@ -291,6 +303,25 @@ func (g *Gen) opRequest(conns []*Client, action string) {
 
 func (g *Gen) opUnsubscribe(conns []*Client) {
 	c := g.conn(conns)
+	if g.p.Protocol {
+		var active []string
+		for rid, n := range c.Ref.Direct {
+			if n > 0 {
+				active = append(active, rid)
+			}
+		}
+		if len(active) == 0 {
+			return
+		}
+		sort.Strings(active)
+		rid := g.sample("rid", active)
+		params := ""
+		if d := c.Ref.Direct[rid]; d > 1 && rapid.IntRange(0, 2).Draw(g.t, "unsuball") == 0 {
+			params = fmt.Sprintf(`{"count":%d}`, rapid.IntRange(1, d).Draw(g.t, "count"))
+		}
+		g.w.Exec(Op{K: "creq", C: c.Idx, ID: g.nextID(c), M: "unsubscribe." + rid, P: params})
+		return
+	}
 	// prefer rids with activity on this connection
 	cand := g.rids
 	var active []string
